@@ -1,4 +1,5 @@
 """C09: oblivious if/elif/else, while and for compute what native control flow computes."""
+import re
 import types
 
 from hypothesis import given, strategies as st
@@ -176,7 +177,8 @@ def draw_case(draw):
                  "m": [[draw(st.integers(-3, 5)) for _ in range(2)] for _ in range(2)],
                  "msec": [[draw(st.booleans()) for _ in range(2)] for _ in range(2)]}
     return {"nvars": g.nvars, "nin": g.nin, "nbool": g.nbool, "init": init, "init_secret": init_secret,
-            "body": body, "a": va, "b": vb, "bitlength": 32, "lists": lists, "in_function": draw(st.integers(0, 3)) == 0}
+            "body": body, "a": va, "b": vb, "bitlength": 32, "lists": lists, "in_function": draw(st.integers(0, 3)) == 0,
+            "names": [draw(st.sampled_from(["x%d", "x%d", "_x%d", "__x%d", "x%d_", "X%d", "acc%d", "_%d"])) % i for i in range(g.nvars)]}
 
 
 # ---- rendering ---------------------------------------------------------------
@@ -231,8 +233,16 @@ def r_cond(c, obl):
     raise ValueError(c)
 
 
+def vname(case, i):
+    """attribute name of tracked variable i (any identifier is a legal variable name, leading underscores included)"""
+    names = case.get("names")
+    return names[i] if names else "x%d" % i
+
+
 def render(case, obl):
     src = _render(case, obl)
+    if case.get("names"):
+        src = re.sub(r"_\.x(\d+)\b", lambda mo: "_." + vname(case, int(mo.group(1))), src)
     if obl and case.get("in_function"):
         # the documented helper-function idiom (examples/branch2.py, test()): the function has its own context under
         # another name while the module keeps its own `_`
@@ -351,7 +361,7 @@ def run_native(case, vec):
         return bool(x)
     ns = {"_": types.SimpleNamespace(), "T": T, "AND": lambda a, b: a and b}
     for i, v in enumerate(case["init"]):
-        setattr(ns["_"], "x%d" % i, v)
+        setattr(ns["_"], vname(case, i), v)
     if case.get("lists"):
         ns["_"].l = list(case["lists"]["l"])
         ns["_"].m = [list(r) for r in case["lists"]["m"]]
@@ -362,7 +372,7 @@ def run_native(case, vec):
     for k, v in vec["stops"].items():
         ns["s" + k] = v
     exec(compile(render(case, False), "<c09-native>", "exec"), ns)
-    out = [getattr(ns["_"], "x%d" % i) for i in range(case["nvars"])]
+    out = [getattr(ns["_"], vname(case, i)) for i in range(case["nvars"])]
     if case.get("lists"):
         out += list(ns["_"].l) + [x for r in ns["_"].m for x in r]
     return out, outcomes
@@ -385,7 +395,7 @@ def run_oblivious(case, vec, p):
     for nm in ("_if", "_elif", "_else", "_endif", "_while", "_endwhile", "_breakif", "_range", "_endfor"):
         ns[nm] = getattr(br, nm)
     for i, v in enumerate(case["init"]):
-        setattr(ctx_obj, "x%d" % i, rt.PrivVal(v) if case["init_secret"][i] else v)
+        setattr(ctx_obj, vname(case, i), rt.PrivVal(v) if case["init_secret"][i] else v)
     if case.get("lists"):
         L = case["lists"]
         ctx_obj.l = [rt.PrivVal(v) if s_ else v for v, s_ in zip(L["l"], L["lsec"])]
@@ -411,9 +421,9 @@ def run_oblivious(case, vec, p):
         return [None] * 99, "the module-level context `_` was used by a function that has its own context", None
     finals = []
     leaves = []
-    objs = [ctx.vals["x%d" % i] for i in range(case["nvars"])]
+    objs = [getattr(ctx, vname(case, i)) for i in range(case["nvars"])]        # read as the program would: _.name
     if case.get("lists"):
-        objs += list(ctx.vals["l"]) + [x for r in ctx.vals["m"] for x in r]
+        objs += list(getattr(ctx, "l")) + [x for r in getattr(ctx, "m") for x in r]
     for x in objs:
         t = ir.classify(e, x)
         finals.append(ir.pyval(x, t) if t in "IBF" else x)
